@@ -568,7 +568,6 @@ func runC08(c *Ctx) error {
 		fmt.Printf("replay (20 re-executions of the scenario): %d failures\n", len(c.Rep.Failures))
 		return nil
 	}
-	c08Directed(c)
 	n := c.N(250, 5000)
 	for i := 0; i < n && !c.Rep.ShouldStop(); i++ {
 		cs := c08Case{Seed: c.Rng.U64(), Slots: 1 + c.Rng.Intn(4), Runners: 1 + c.Rng.Intn(3), Bumps: 1 + c.Rng.Intn(10), Timers: c.Rng.Chance(0.4), Purge: c.Rng.Chance(0.3),
@@ -576,5 +575,7 @@ func runC08(c *Ctx) error {
 		cs.Retry, cs.Late, cs.Diamond = c.Rng.Chance(0.35), c.Rng.Chance(0.3), c.Rng.Chance(0.3)
 		c08One(c, m, cs)
 	}
+	// last: see runC04
+	c08Directed(c)
 	return nil
 }
